@@ -202,6 +202,31 @@ def cli_worker(kp, job):
                 if not should and got is not None:
                     viol.append(('cli-directory', f'recursive={recursive}: {rel} was converted although it is outside the selection', {'text': texts[rel]}))
             records.append(engine.rec('cli-directory', viol=viol, kind=f'cli-dir-recursive={recursive}', key=('clidir', recursive, texts['a.krn'])))
+        # the other direction in directory mode, with and without an --output_path (which directory mode ignores):
+        # every x.ekrn gets a sibling x.krn holding what the API produces
+        ek = {}
+        for rel in layout:
+            e = os.path.join(tmp, 'tree', os.path.splitext(rel)[0] + '.ekrn')
+            if os.path.exists(e):
+                ek[os.path.splitext(rel)[0]] = open(e, encoding='utf-8', newline='').read()
+        for variant, extra in (('plain', []), ('output-file', ['--output_path', os.path.join(tmp, 'one.krn')]),
+                               ('output-dir', ['--output_path', os.path.join(tmp, 'outdir')])):
+            t2 = os.path.join(tmp, 'tree_' + variant)
+            for stem, content in ek.items():
+                os.makedirs(os.path.dirname(os.path.join(t2, stem)), exist_ok=True)
+                with open(os.path.join(t2, stem + '.ekrn'), 'w', encoding='utf-8', newline='') as f:
+                    f.write(content)
+            os.makedirs(os.path.join(tmp, 'outdir'), exist_ok=True)
+            rc, so, se = cli(['--ekern2kern', '--input_path', t2, '-r'] + extra, tmp)
+            viol = []
+            for stem, content in ek.items():
+                kpath = os.path.join(t2, stem + '.krn')
+                got = open(kpath, encoding='utf-8', newline='').read() if os.path.exists(kpath) else None
+                if got != kp.get_kern_from_ekern(content):
+                    viol.append(('cli-ekern2kern', f'directory mode ({variant}): {stem}.ekrn was not converted to what get_kern_from_ekern produces '
+                                 f'(exit {rc}, written: {got is not None})', {'text': content, 'variant': variant}))
+                    break
+            records.append(engine.rec('cli-directory-back', viol=viol, kind='cli-dir-ekern2kern-' + variant, key=('clidirback', variant, texts['a.krn'])))
     finally:
         shutil.rmtree(tmp, ignore_errors=True)
     return {'records': records}
@@ -211,13 +236,13 @@ def run(chk):
     chk.level = 'proof'
     b = core.standard_build(chk)
     model = core.Model() if b.modelrun_ok else None
-    full = chk.tier == 'thorough' or bool(b.drift) or not b.proof_ok
+    full = chk.tier == 'thorough' or bool(b.drift) or not b.proof_ok or not b.modelrun_ok
     nfile = core.budget(chk, full, 55, 300)
     ncli = 12 if full else 3
     chk.rule = ('generated documents written to real temporary files with LF / CRLF / CR line ends, with and without final newline, '
                 'non-ASCII lyrics (every 11th with the extra separators of str.splitlines: finding K9): load vs loads (whole tree), '
                 'dump vs dumps for 3 option sets into missing directories; python -m kernpy subprocesses: single-file kern2ekern, '
-                'ekern2kern and back, directory mode with and without -r over a tree with .krn / .kern / other files, the same file names in several directories; '
+                'ekern2kern and back, directory mode (both directions, with and without --output_path) with and without -r over a tree with .krn / .kern / other files, the same file names in several directories; '
                 'non-trivial = distinct (text, operation)')
     results = engine.pmap(file_worker, [(chk.seed, i) for i in range(nfile)]) + engine.pmap(cli_worker, [(chk.seed, i) for i in range(ncli)], nproc=min(ncli, 6))
     engine.settle(chk, results, model)
